@@ -141,6 +141,7 @@ Proof.
 Qed.
 
 Theorem malformed_rejected_bytes P bytes pw :
+  cost_capped_bytes P bytes = true ->
   match json_parse P bytes with
   | None => True                                   (* not JSON *)
   | Some t =>
@@ -151,6 +152,22 @@ Theorem malformed_rejected_bytes P bytes pw :
   end ->
   exists e, ReadWalletFile P bytes pw = Err e.
 Proof.
-  unfold ReadWalletFile. destruct (json_parse P bytes) as [t|]; [|eauto].
+  unfold ReadWalletFile, cost_capped_bytes. destruct (json_parse P bytes) as [t|]; [|eauto].
   apply malformed_rejected.
+Qed.
+
+(* without the cap: the malformations tested before the KDF call *)
+Theorem malformed_rejected_early_bytes P bytes pw :
+  match json_parse P bytes with
+  | None => True
+  | Some t =>
+      match decode_content P t with
+      | None => True
+      | Some c => (core_bad c || dklen_bad c || cost_bad c || prf_bad c) = true
+      end
+  end ->
+  exists e, ReadWalletFile P bytes pw = Err e.
+Proof.
+  unfold ReadWalletFile. destruct (json_parse P bytes) as [t|]; [|eauto].
+  apply malformed_rejected_early.
 Qed.
